@@ -19,6 +19,8 @@ ASSUMPTIONS = ["destinations keep a margin >= 0.5 mm from region borders (the pr
 
 PATH = [("TRAVEL", "O2"), ("TRAVEL", "I1"), ("TRAVEL", "O1"), ("TRAVEL", "Org"), ("XONLY", "I1"), ("YONLY", "I1"), ("PRINT", "I2"), ("PRINT", "O2"), ("TRAVEL", "H"),
         ("TRAVELZ", "I1", 2), ("ZMOVE", 2), ("ZMOVE", 1), ("RETRACT",), ("RECOVER",), ("SWITCH",)]
+# layer-sized Z steps for the unit re-encoding (0.4 / 0.6 mm are the same to two decimals in inches)
+PATH_INCH = [e for e in PATH if e not in (("ZMOVE", 2), ("TRAVEL", "Org"), ("YONLY", "I1"))] + [("ZMOVE", "0.4"), ("ZMOVE", "0.6")]
 
 
 def scenarios(tier):
@@ -27,7 +29,7 @@ def scenarios(tier):
     out = []
     for T in ("inch", "rel", "translate"):
         out.append(Scenario("c08-" + T, ProductWorld, dict(prop="C08", T=T, world=w),
-                            (PATH + [("HOME", "XY"), ("HOME", "W")]) if T != "translate" else PATH[:-1],
+                            ((PATH_INCH if T == "inch" else PATH) + [("HOME", "XY"), ("HOME", "W")]) if T != "translate" else PATH[:-1],
                             max_depth=(5 if q else 8) if T != "translate" else (7 if q else 9), max_states=3000000))
     out.append(Scenario("c08-g92", ProductWorld, dict(prop="C08", T="g92", world=w), PATH, max_depth=4 if q else 6,
                         max_states=3000000, finding="D16", note="dedicated to known finding D16 (G92 X/Y/Z offset sign)"))
